@@ -311,3 +311,11 @@ def run(repo: Repo, rep: Report, tier: str) -> None:
         rep.check(ok11, "C02-R11", "get_wire_color_for_edge: the fixed default is used only after the edges between the two entities were consulted",
                   "a scan of the recorded edges dominates the default" if ok11 else
                   f"`{norm(st)[:70]}` answers `red` for any name that is not an edge name: `b * c[\"coal\"]` reads coal on red while c arrives on green, the product is 0", gw.loc(st))
+
+    # ---------------- R12 --------------------------------------------------------------
+    _borrow2(repo, rep, "C10", "C10-R15", "C02-R12", "`(b > 0) : b` and `(b > 0) : 1` stay two filters: the common-subexpression key of a decider distinguishes copying the members' values "
+             "from outputting a constant", floor=2)
+
+    # ---------------- R13 --------------------------------------------------------------
+    _borrow2(repo, rep, "C01", "C01-R4", "C02-R13", "a filter or gate whose scalar stands on the left (`(3 < b) : b`, `(3 == k) : b`) reads that scalar on its own wire: in the mirrored "
+             "form the operand that moves to the first slot takes its wire selection with it", select=lambda o: "mirrored" in o.construct or "_operand_wires" in o.construct, floor=3)
